@@ -39,6 +39,12 @@ var dBase = (time.Now().Add(-time.Hour).UnixNano() / 1000) * 1000
 // dFrozen: the clock keeps returning the same reading (several changes within one clock tick)
 var dFrozen bool
 
+// dStep: nanoseconds per clock reading (10 by default; C01 also runs its histories with more than an hour per reading, so
+// that every entry is more than an hour old by the time of the next operation). dShift moves the base back so that
+// such stamps stay in the past of the wall clock.
+var dStep int64 = 10
+var dShift int64
+
 func dInstallClock() {
 	distributed.VerifSetClock(func() int64 {
 		if !dFrozen {
@@ -48,10 +54,10 @@ func dInstallClock() {
 		if dCur != nil {
 			off = dCur.off
 		}
-		return dBase + 10*dTick + off
+		return dBase - dShift + dStep*dTick + off
 	})
 }
-func dResetClock() { dTick = 0; dCur = nil; dFrozen = false }
+func dResetClock() { dTick = 0; dCur = nil; dFrozen = false; dStep = 10; dShift = 0 }
 
 func newDNode(name string, peer uint64, off int64) *dnode {
 	return newDNodeRec(name, peer, off, audit.NoneRecorder())
